@@ -48,7 +48,7 @@ def build(idx, cfgs, prefix, spec_fn, per_file=100, select=None):
                 if key in seen: seen[key].meta['covers'].append('%s:%s' % (cfg, f['key'])); continue
                 n += 1
                 lem = Lemma('%s_%d' % (prefix, n), sp['vars'], sp['lhs'], sp['rhs'], tactic=sp.get('tactic', 'solve_struct'), meta={'cfg': cfg, 'key': f['key'], 'file': f['file'], 'fid': f['fid'], 'did': f['did'], 'covers': ['%s:%s' % (cfg, f['key'])], 'spec': sp.get('spec', ''), 'fixed': sp.get('fixed', {})})
-                lem.ty = sp.get('ty', 'res (valO O)'); lem.ops = sp.get('ops', 'O'); lem.intstd = sp.get('intstd', False)
+                lem.ty = sp.get('ty', 'res (valO O)'); lem.ops = sp.get('ops', 'O'); lem.intstd = sp.get('intstd', False); lem.mode = sp.get('mode')
                 seen[key] = lem; order.append(lem)
     nfiles = max(1, (len(order) + per_file - 1) // per_file)   # round-robin so that slow lemmas of one type spread over all workers
     for k, lem in enumerate(order): files.setdefault('%s_%03d' % (prefix.capitalize(), k % nfiles), []).append(lem)
@@ -68,7 +68,7 @@ def run(pid, tier, seed, idx, info, t0, files, notes, cover, hdr, per_fn, rule, 
     core.LEMMA_TIMEOUT[0] = 20 if tier == 'quick' else 300
     nob, nd, failures, assum = core.prove_files(core.BUILD + '/props/' + pid, files, hdr=hdr)
     notes['deferred_count'] = len(core.DEFERRED); notes['deferred'] = ['%s (%s)' % (l.meta['key'], why) for l, why in core.DEFERRED][:60]
-    corr = core.correspondence(idx, targets if targets is not None else corr_targets(cover, tier), seed, per_fn, pid, fuel=fuel)
+    corr = core.correspondence(idx, targets if targets is not None else corr_targets(cover, tier), seed, per_fn, pid, fuel=fuel, max_calls=3000 if tier == 'quick' else 60000)
     samples = []
     for ls in list(files.values())[:2]:
         for l in ls[:1]: samples.append({'lemma': l.name, 'statement': l.statement()[:400], 'covers': l.meta['covers'][:3]})
